@@ -613,7 +613,11 @@ pub(super) fn translate_cid(cid: rq::CId, ctx: &mut Context) -> Result<ExprOrSou
 
             _ => {
                 let name = ctx.anchor.column_names.get(&cid).cloned();
-                name.expect("name of this column has not been to be set before generating SQL")
+                name.ok_or_else(|| {
+                    Error::new_assert(
+                        "name of this column has not been to be set before generating SQL",
+                    )
+                })?
             }
         };
 
